@@ -2,8 +2,8 @@
 import random
 from .. import core, sysgen, reader, gen
 
-MODULES = ['DsdVerif.Props.C16', 'DsdVerif.Props.PyReaderFns']
-GEN_FILES = ['Symbols', 'Grammars', 'PyReaderFns', 'GrammarUnits']
+MODULES = ['DsdVerif.Props.C16', 'DsdVerif.Props.PyReaderFns', 'DsdVerif.Props.PyReadLine']
+GEN_FILES = ['Symbols', 'Grammars', 'PyReaderFns', 'GrammarUnits', 'PyReadLine']
 THEOREMS = ['Dsd.Symbols.no_unresolved_global', 'Dsd.C16.reader_never_faults', 'Dsd.C16.readLine_never_faults_fresh',
             'Dsd.C16.typed_lineOK', 'Dsd.C16.resolveKernel_ok', 'Dsd.C16.resolveKernel_total',
             'Dsd.C16.pil_lines_typed', 'Dsd.C16.read_text_faults_only_recursion', 'Dsd.C16.read_text_never_faults',
@@ -15,6 +15,8 @@ THEOREMS = ['Dsd.Symbols.no_unresolved_global', 'Dsd.C16.reader_never_faults', '
 THEOREMS += ['Dsd.PyReaderFns.' + t for t in [
     'py_read_reaction_eq_model', 'py_read_reaction_short_line', 'model_differs_on_str_info', 'py_accepts_str_rate', 'py_read_reaction_outcome',
     'py_ignored_reaction_six_nones', 'py_accepted_reaction', 'py_ignored_reaction_survives', 'py_no_info_box_six_nones']]
+# read_pil_line as written in the source (translator/pyreaderfn3.py -> Gen/PyReadLine.lean; constructions are request parameters; PARTIAL: strand-complex / kernel-complex are raising stubs, only the dl-domain branch is proved equal to the model, no stream yet)
+THEOREMS += ['Dsd.PyReadLine.' + t for t in ['py_unconfigured_hands_back', 'py_dl_domain_eq_model', 'py_dl_domain_no_own_fault']]
 ASSUMPTIONS = [
     'static part: the global-name reference table of every function / method / lambda / comprehension / class body of the package is '
     'regenerated with symtable by translator/gen.py; a name bound anywhere at module level (incl. inside if/try, via import or import *) '
